@@ -90,6 +90,7 @@ contract(
               ("table", "HoursWf(hours_dict)")],
     ensures=[("exact", "result == (" + _cwf_exact + ")")],
     locals={"intervals": List(Interval)},
+    replay="workinghours", probes={"minutes": "slot_minutes", "weekday": "weekday", "cross": "check_cross_midnight"},
 )
 
 for _v, _cy in (("py", False), ("cy", True)):
